@@ -1,4 +1,5 @@
 import FpgoVerif.Proofs.C04Step
+import FpgoVerif.Gen.StreamEffects
 /-! Property theorems for C04 — Stream / Set / StreamSet are persistent.
 
     All statements are about the definitions the driver executes (`step`/`exec` of `Model/C04Proto`, the
@@ -188,6 +189,40 @@ theorem C04_len_agrees_partial (w : World) (p : Nat)
     (hb : (w.strHdr p).off + (w.strHdr p).len ≤ (w.arrAt (w.strHdr p).arr).length) :
     (w.strContent p).length = (w.strHdr p).len := by
   simp [strContent, sliceContent, List.length_take, List.length_drop]; omega
+
+/-! ### the regenerated destructive-effect table (`extract/c04.go` → `Gen/StreamEffects.lean`) -/
+
+/-- the only functions allowed to write storage reachable from their receiver / parameters, with exactly these
+    writes: the documented mutators (`Set` ×2, interface{} `Remove`), `SortByIndex`'s sort-then-restore pair
+    (modelled by `strSortByIndex`, undone by `strSortByIndex_arrs`), `fp.Sort` (documented in-place; the
+    stream `Sort`s apply it to a fresh clone, hence have no entry) and `DuplicateSlice`'s append to a
+    zero-capacity view (which cannot write into its argument). -/
+def allowedEffects : List (String × List String) :=
+  [("MapSetDef.Set", ["idx:(*recv)"]),
+   ("SetForInterfaceDef.Set", ["idx:(*recv)"]),
+   ("StreamForInterfaceDef.Remove", ["store:recv", "append:(*recv)[:index]"]),
+   ("StreamDef.SortByIndex", ["sort:*recv", "copy:*recv"]),
+   ("StreamForInterfaceDef.SortByIndex", ["sort:*recv", "copy:*recv"]),
+   ("fp.Sort", ["sort:input"]),
+   ("fp.DuplicateSlice", ["append0:list[:0:0]"])]
+
+/-- Every Stream / MapSet / StreamSet method of both families, every constructor in stream.go /
+    streamForInterface.go and every fp.go helper they call has NO destructive operation on storage reachable
+    from its receiver or parameters — except the entries of `allowedEffects`, with exactly the listed writes.
+    (Kernel evaluation over the table regenerated from the source on every run.) -/
+theorem C04_effects_closed :
+    Gen.streamEffects.all (fun e => e.effects.isEmpty || allowedEffects.contains (e.name, e.effects)) = true := by
+  decide +kernel
+
+/-- the table is not empty and contains the methods the property names -/
+theorem C04_effects_inventory :
+    ["StreamDef.Map", "StreamDef.Filter", "StreamDef.Remove", "StreamDef.SortByIndex", "StreamDef.Append",
+     "StreamDef.Concat", "StreamDef.Extend", "StreamDef.Reverse", "StreamDef.Clone", "StreamDef.ToArray",
+     "StreamForInterfaceDef.Remove", "StreamForInterfaceDef.SortByIndex", "MapSetDef.Add", "MapSetDef.Set",
+     "MapSetDef.Union", "MapSetDef.Minus", "SetForInterfaceDef.Add", "StreamSetDef.Union", "StreamSetDef.MinusStreams",
+     "StreamSetForInterfaceDef.Clone", "fp.Filter", "fp.Reverse", "fp.Concat", "fp.DuplicateSlice"].all
+      (fun n => Gen.streamEffects.any (fun e => e.name == n)) = true := by
+  decide +kernel
 
 /-! ### non-vacuity -/
 
